@@ -461,7 +461,12 @@ pub struct ScriptedSub {
     pub counter: Option<Arc<Counter>>,
     /// bumped by on_unsubscribe
     pub unsub_counter: Option<Arc<Counter>>,
+    /// scenario-specific action performed inside on_notify (e.g. unsubscribe another subscriber,
+    /// dispatch to another store)
+    pub hook: Option<SubHook>,
 }
+
+pub type SubHook = Arc<dyn Fn(&Arc<Ctx>, &St, &Act) + Send + Sync>;
 
 impl Subscriber<St, Act> for ScriptedSub {
     fn on_notify(&self, st: &St, act: &Act) {
@@ -474,6 +479,9 @@ impl Subscriber<St, Act> for ScriptedSub {
         c.perturb();
         if self.read_wh != 0 {
             c.read(store, self.read_wh);
+        }
+        if let Some(h) = &self.hook {
+            h(c, st, act);
         }
         c.ev(K::SEnd, store, act.id, self.id, st.digest(), st.steps, 0);
         if let Some(cn) = &self.counter {
